@@ -250,7 +250,10 @@ pub fn core(seed: u64, name: &str, o: &CoreOpts) -> (Scenario, SchedCfg) {
     let mut solo_recv: Option<(u32, bool)> = None;
     if o.solo != 0 {
         let hr = g.h();
-        let own_stream = flavour == Flavour::Bcast;
+        // on a broadcast queue the solo receiver usually gets a stream of its own; with
+        // `force_shared` it is, half of the time, a sibling handle on the first stream, so
+        // that its try_recv meets slots pinned by a frozen sibling (seed C18e)
+        let own_stream = flavour == Flavour::Bcast && !(o.force_shared && g.rng.chance(1, 2));
         if own_stream {
             s.setup.push(Op::AddStream { h: 1, new: hr });
         } else {
@@ -284,6 +287,11 @@ pub fn core(seed: u64, name: &str, o: &CoreOpts) -> (Scenario, SchedCfg) {
             if uni {
                 // conversion happens in setup so that it cannot race a sibling clone
                 s.setup.push(Op::IntoSingle { h });
+            } else if single && g.rng.chance(1, 5) {
+                // round trip: the handle the traffic runs on went through into_single and
+                // into_multi (seed C15e: into_multi built the handle with swapped wait lists)
+                s.setup.push(Op::IntoSingle { h });
+                s.setup.push(Op::IntoMulti { h });
             }
             // futures uni receivers poll through the stored closure
             let real_handles = st.iter().filter(|x| **x != u32::MAX).count();
@@ -509,6 +517,10 @@ fn quota_family(seed: u64, fut: bool) -> (Scenario, SchedCfg) {
             let uni = single && g.rng.chance(1, 2);
             if uni {
                 s.setup.push(Op::IntoSingle { h });
+            } else if single && g.rng.chance(1, 4) {
+                // conversion round trip before the traffic (seed C15e)
+                s.setup.push(Op::IntoSingle { h });
+                s.setup.push(Op::IntoMulti { h });
             }
             let mut apis = vec![RecvApi::Recv, RecvApi::Recv, RecvApi::Iter];
             if uni {
@@ -579,6 +591,10 @@ pub fn futpark_pause(seed: u64) -> (Scenario, SchedCfg) {
     let uni = g.rng.chance(1, 2);
     if uni {
         s.setup.push(Op::IntoSingle { h: 1 });
+    } else if g.rng.chance(1, 4) {
+        // the bottleneck consumer's handle went through a conversion round trip (seed C15e)
+        s.setup.push(Op::IntoSingle { h: 1 });
+        s.setup.push(Op::IntoMulti { h: 1 });
     }
     let np = g.rng.range(1, 2) as u32;
     let mut senders = vec![0u32];
